@@ -256,6 +256,12 @@ def st_AugAssign(eng, s, st):
         if is_raised(vals):
             outs.append((s1, _raise(vals)))
             continue
+        h = eng.method_models.get("__iadd__")
+        if h is not None and isinstance(s.op, ast.Add):
+            r_ = h(eng, s1, vals[0], vals[1], s)  # in-place `+=` on a container the unit models (list.__iadd__ mutates, the name keeps its object)
+            if r_ is not None:
+                outs.extend(r_)
+                continue
         for s2, r in eng.binop(s1, s.op, vals[0], vals[1], s):
             if is_raised(r):
                 outs.append((s2, _raise(r)))
